@@ -207,14 +207,16 @@ Exec(ws, s) ==
                         IF ~IsInstance(Kind(r.ws, r.node)) THEN [faults |-> {"NotAnInstance"}, ws |-> ws]
                         ELSE
                           \* every export of the instance that does not conflict with a previous export
-                          \* (names conflict up to ASCII case, see GraphAbs.SameName)
-                          LET todo == SeqOfSetW({x \in DOMAIN Kind(r.ws, r.node).ex : ~Taken(DOMAIN r.ws.g.exports, x)})
+                          \* (the resolver skips a name that is exported already, looked up exactly; a name that
+                          \* conflicts up to ASCII case only -- GraphAbs.SameName -- is refused by export())
+                          LET todo == SeqOfSetW(DOMAIN Kind(r.ws, r.node).ex \ DOMAIN r.ws.g.exports)
                               RECURSIVE X(_, _)
                               X(w, j) == IF j > Len(todo) THEN w
                                          ELSE LET a == AliasOf(w, r.node, todo[j])
                                               IN X(Do(a.ws, Op("export", a.node, 0, todo[j], NONE)), j + 1)
                               F == (IF todo = <<>> THEN {"SpreadExportNoEffect"} ELSE {})
                                    \cup (IF \E j \in DOMAIN todo : todo[j] \notin ValidNames THEN {"InvalidExternName"} ELSE {})
+                                   \cup (IF \E j \in DOMAIN todo : Taken(DOMAIN r.ws.g.exports, todo[j]) THEN {"DuplicateExternName"} ELSE {})
                           IN IF F # {} THEN [faults |-> F, ws |-> ws] ELSE [faults |-> {}, ws |-> X(r.ws, 1)]
 
 InitWs == [g |-> EmptyState, env |-> <<>>, nm |-> <<>>, iid |-> <<>>]
